@@ -26,7 +26,7 @@ RULE = (
     "empty batches) and occasional device failures, on: a minimal BaseCircuitRunner subclass (n or n+3 "
     "shots), SymbolicSimulator, a simulator with a partial native gate set (6 sets), a simulator with the "
     "default predicate, and a MeasurementTrackingBackend around each (calls alternate between the tracker "
-    "and the shared wrapped runner); circuits on 0-4 qubits incl. operation-free and idle-qubit ones; a "
+    "and the shared wrapped runner); circuits on 0-5 qubits incl. operation-free and idle-qubit ones; a "
     "history is non-trivial when a rejected call lies between two successful ones; distinct = distinct "
     "canonical history strings"
 )
